@@ -681,7 +681,7 @@ def fixup(doc, base):
                 v[1] = ['']
         if sid == 'CLM':
             lx = 0
-        if sid == 'LX' and doc.root.id == '837':
+        if sid == 'LX' and doc.root.id.startswith('837'):
             lx += 1
             v[0] = [str(lx)]
         segct += 1
@@ -689,3 +689,42 @@ def fixup(doc, base):
 
 def build_doc(entry, ch, **kw):
     return Gen(entry, ch, **kw).build()
+
+
+def merge_docs(docs):
+    """One interchange whose functional groups come from several documents (possibly of different maps, same ISA version):
+    the groups of docs[1:] are appended to the (single) interchange of docs[0]; group control numbers and the IEA count are
+    renumbered, loop-instance numbers are made unique, every segment keeps its own map node."""
+    base = docs[0]
+    if sum(1 for s in base.segs if s.id == 'ISA') != 1:
+        raise GenFail('merge needs a single-interchange base document')
+    out = Doc(base.entry, base.root)
+    out.stats = dict(base.stats)
+    out.parts = [d.entry for d in docs]
+    isa_chain = base.segs[0].chain[:1]
+    segs = list(base.segs[:-1])
+    off = max([inst for s in segs for (_n, inst) in s.chain] or [0]) + 1
+    for d in docs[1:]:
+        if d.icvn != base.icvn:
+            raise GenFail('merge needs one ISA version')
+        top = 0
+        for s in d.segs:
+            if s.id in ('ISA', 'IEA') or len(s.chain) < 2:
+                continue          # interchange-level segments (TA1) stay those of the base document
+            c = GSeg(s.node, s.vals, isa_chain + [(ln, inst + off) for (ln, inst) in s.chain[1:]])
+            c.tags = set(s.tags)
+            segs.append(c)
+            top = max([top] + [inst for (_n, inst) in s.chain])
+        off += top + 1
+    segs.append(base.segs[-1])
+    n = 0
+    for s in segs:
+        if s.id == 'GS':
+            n += 1
+            s.vals[5] = [str(n)]
+        elif s.id == 'GE':
+            s.vals[1] = [str(n)]
+        elif s.id == 'IEA':
+            s.vals[0] = [str(n)]
+    out.segs = segs
+    return out
